@@ -187,7 +187,7 @@ def _c03_vm_sample(d, tier, coq, build, want=280):
 
 CONFIG = {
     "properties_file": "Properties/C03.v",
-    "proof_files": ["Base/Prelude.v", "Proofs/FindRoots.v"],
+    "proof_files": ["Base/Prelude.v", "Proofs/FindRoots.v", "Proofs/FindRootsCopy.v"],
     "model_files": ["Generated/GC03.v", "Model/FindRoots.v"],
     "extract": "XC03.v",
     "ml_main": "c03_main.ml",
@@ -196,7 +196,7 @@ CONFIG = {
     "post_model": _c03_vm_sample,
     "timeout_quick": 600,
     "assumptions": [
-        "copy_closure_C01 / copy_only_C01 (Section hypotheses of C03_extended_closure, C03_depth_own_graph, C03_depth_nothing_outside): the copy phase (copyGraph per root with shared tracker/proxy/limiter) delivers each root's graph byte-identical and writes nothing else; this is C01's theorem, to be connected after merging. The oracle checks the end-to-end statement on the real ExtendedCopy/ExtendedCopyGraph.",
+        "copy phase: C03_extended_closure / C03_depth_own_graph use C01's theorem (Proofs/CopySpec.v closure_lemma = C01_closure) through copy_run_of: for every root there is an accepted run of C01's copyGraph transition system that returned success from a link-closed destination and whose destination content is contained in the final destination. That ExtendedCopyGraph's concurrent per-root copyGraph calls (shared tracker, proxy and limiter: a node is copied by whichever call commits it first, the others wait for it) amount to such runs is modelled, not verified; the oracle checks the end-to-end statement on the real ExtendedCopy/ExtendedCopyGraph with Concurrency 0-4. The general forms C03_extended_closure_gen / C03_depth_own_graph_gen / C03_depth_nothing_outside keep the closure facts as Section hypotheses copy_closure_C01 / copy_only_C01; mt_consistent is C01's hypothesis for digest-keyed destinations",
         "acyclic_source: the source's predecessor relation is acyclic (content addressing: a predecessor embeds the digest of its successor); pred_is_inverse_link: Predecessors is the inverse of content.Successors on the source (C07's subject; the harness checks it against the generator's edge list on every case)",
         "served_ok (C03_filter_exact): a served descriptor may lack artifactType/annotations, but what it carries is the manifest's; a ReferrerLister source (remote repository: Referrers API response / referrers-tag index) serves complete referrer descriptors (artifactType = effective type, annotations = the manifest's) as the distribution spec requires -- the first filter does not fetch there. The harness registry serves such descriptors; generators keep descriptors consistent",
         "regular expressions are their MatchString function (str -> bool), quantified over; Go regexp is evaluated by the harness into the truth table the model receives",
